@@ -7,7 +7,7 @@ from hypothesis import strategies as st
 from vlib import catalogue as cat
 from vlib import strategies as vs
 from vlib.models import lfr as lm
-from vlib.runner import SubCheck, Violation, sut
+from vlib.runner import Decoy, SubCheck, Violation, sut
 from vlib.tolerant import Forker
 
 
@@ -22,12 +22,16 @@ def check_history(case, ctx):
 
     p = case["params"]
     base = case["seed_base"]
+    use_default_rates = p["rates_tracked"] == lm.RATES
+    kw = {k: v for k, v in p.items() if not (k == "rates_tracked" and use_default_rates)}  # default argument when it says the same
     with sut(detector="LinearFourRates"):
-        det = LinearFourRates(parallelize=False, **p)
+        det = LinearFourRates(parallelize=False, **kw)
+    decoy = Decoy(lambda: LinearFourRates(parallelize=False, **kw), lambda d, a, b: d.update(a, b), every=4)
     model = lm.LfrModel(p["time_decay_factor"], p["warning_level"], p["detect_level"], p["burn_in"], p["num_mc"], p["subsample"], p["rates_tracked"], p["round_val"])
     fk = Forker(model, copier=lambda m: m.clone())
     ndrift = 0
     for i, (yt, yp) in enumerate(case["pairs"]):
+        decoy.step(1 - yt, yp)
         with sut(detector="LinearFourRates"):
             np.random.seed(base + i)
             det.update(yt, yp)
